@@ -29,5 +29,16 @@ func init() {
 		c.Min("M3-flag-shape", 30)
 		c.ruleM4("M4-bare-return-nil")
 		c.ruleM5("M5-map-write-locked")
+		// the map handed back is complete: every goroutine that may still add an entry is joined before any return
+		n := 0
+		for _, fn := range c.engineExecFns() {
+			m := c.engModel(fn)
+			if len(m.gos) == 0 {
+				continue
+			}
+			n++
+			c.ruleA4("M5-joined-before-return", fn, isRuleExec, m.errList())
+		}
+		c.Min("M5-joined-before-return", 100)
 	}
 }
